@@ -44,6 +44,8 @@ pub enum ThrSpec {
     JustAbove(usize),
     /// midpoint between the score of a position and the next larger distinct score
     Midpoint(usize),
+    /// the k-th largest finite score (k = 0: only the best positions hit)
+    TopK(usize),
     BelowMin,
     VeryLow,
     NegInf,
@@ -103,6 +105,16 @@ fn resolve_thr(t: &ThrSpec, r32: &[f32], min: f32, max: f32) -> Option<f32> {
                 v + 0.5
             }
         }
+        ThrSpec::TopK(k) => {
+            let mut v = finite.clone();
+            v.sort_by(|a, b| b.partial_cmp(a).unwrap());
+            v.dedup();
+            if v.is_empty() {
+                0.0
+            } else {
+                v[(*k).min(v.len() - 1)]
+            }
+        }
         ThrSpec::BelowMin => {
             if min.is_finite() {
                 min - 1.0
@@ -141,6 +153,7 @@ fn thr_strategy() -> BoxedStrategy<ThrSpec> {
         5 => any::<usize>().prop_map(ThrSpec::ScoreOf),
         3 => any::<usize>().prop_map(ThrSpec::JustAbove),
         3 => any::<usize>().prop_map(ThrSpec::Midpoint),
+        4 => (0usize..4).prop_map(ThrSpec::TopK),
         2 => Just(ThrSpec::BelowMin),
         1 => Just(ThrSpec::VeryLow),
         1 => Just(ThrSpec::NegInf),
@@ -277,7 +290,7 @@ impl Sub for Exhaust {
         "DNA sequence (L 0..2100, plus 8192+-40) x matrix (library / finite incl. finite wildcard column / -inf cells / small-int) x extra wrap rows x block size derived from the row count (R+d, ceil((R+d)/2), 1..64, 256, default) x threshold derived from the actual scores (exact score, next float above, midpoint, below min, -1e9, -inf, above max, default 0) x forced dispatcher arm x own score buffer; next() to exhaustion compared as a multiset with {(i, s_i): s_i >= t}; non-trivial = expected set neither empty nor everything and >= 2 blocks"
     }
     fn cases(&self, tier: Tier) -> u64 {
-        tier.pick(30_000, 1_500_000)
+        tier.pick(100_000, 3_000_000)
     }
     fn strategy(&self, tier: Tier) -> BoxedStrategy<Case> {
         case_strategy(tier, false)
@@ -415,7 +428,7 @@ impl Sub for Best {
         "C02's domain plus near-tie matrices (few distinct cell values +-1e-3) on repeat-rich sequences, k next() calls before max() (0, few, all), the same input under 3 block sizes; oracle: None iff no unconsumed position scores >= t, else the returned position is unconsumed, its score is bit-equal to the reference score of that position and equals the maximum over unconsumed hits; non-trivial = a runner-up within one 8-bit step of the best, or no hit although some position passes the 8-bit pre-filter, or k > 0 with hits left"
     }
     fn cases(&self, tier: Tier) -> u64 {
-        tier.pick(30_000, 1_500_000)
+        tier.pick(100_000, 3_000_000)
     }
     fn strategy(&self, tier: Tier) -> BoxedStrategy<Case> {
         case_strategy(tier, true)
